@@ -33,6 +33,7 @@ ASSUMPTIONS = [
 ]
 
 THR = 10e-10
+SAMPLE_ALL = True        # how many of the recorded normalize calls are checked one by one (set per tier in run)
 ATOL = 10e-12
 TINY = [1e-9, 2e-9, 5e-10, 1.5e-9, 1e-12, 3e-9, 1e-10, 9.999e-10]
 
@@ -527,7 +528,10 @@ def summarise(trials, rng):
                             mon["worst_excess"] = max(mon["worst_excess"], abs(y) - s)
             n = len(calls)
             idx = sorted(set(range(min(3, n))) | {n - 1}) if n else []
-            sample = sorted(set(idx) | {rng.randrange(n) for _ in range(4)}) if n else []
+            if SAMPLE_ALL:
+                sample = sorted(set(idx) | {rng.randrange(n) for _ in range(4)}) if n else []
+            else:       # quick tier: the first, the last and two other calls
+                sample = sorted({0, n - 1} | {rng.randrange(n) for _ in range(2)}) if n else []
             dims.append({"n": n, "spans": d["spans"], "fx": d["fx"], "replay": [calls[i][0] for i in idx],
                          "last_out": calls[-1][1] if n else None,
                          "sample": [[calls[i][0], calls[i][1]] for i in sample]})
@@ -1251,12 +1255,22 @@ def nontrivial(case):
     return True
 
 
+def _obs_of(case):
+    try:
+        return run_impl(case)
+    except Exception as e:              # reported by run_cases as "implementation raised"
+        import traceback
+        return {"crash": f"{type(e).__name__}: {e}", "tb": traceback.format_exc()[-800:]}
+
+
 SIZES_QUICK = [9, 10, 11, 16, 17]
 SIZES_THOROUGH = [9, 10, 11, 15, 16, 17, 31, 32, 33, 64, 65]
 
 
 def run(ctx, out, replay=None):
+    global SAMPLE_ALL
     quick = ctx.quick()
+    SAMPLE_ALL = not quick
     nk = 1800 if quick else 36000
     nd = 14 if quick else 150
     nl = 30 if quick else 450
@@ -1299,8 +1313,26 @@ def run(ctx, out, replay=None):
         heavy.append(gen_chain(rng, sizes[(i // 6) % len(sizes)] if i % 6 == 5 else None))
     mon = {"calls": 0, "tiny_entries": 0, "bound_broken": 0, "worst_excess": 0.0, "returned": 0, "raised": {}}
 
+    # the runs of the implementation are independent of each other (every case seeds `random` and resets the
+    # class-level epsilon itself): the heavy ones are run in worker processes, in a fixed order
+    import multiprocessing
+    import time
+    t0 = time.time()
+    pre = {}
+    try:
+        with multiprocessing.get_context("fork").Pool(6) as pool:
+            for i, obs in enumerate(pool.map(_obs_of, heavy, chunksize=1)):
+                pre[id(heavy[i])] = obs
+    except Exception:
+        pre = {}
+    t_pre = round(time.time() - t0, 1)
+
     def run_mon(case):
-        obs = run_impl(case)
+        obs = pre.pop(id(case), None)
+        if obs is None:
+            obs = run_impl(case)
+        if "crash" in obs:
+            raise RuntimeError(obs["crash"])
         m = obs.get("monitor")
         if m:
             for key in ("calls", "tiny_entries", "bound_broken"):
@@ -1315,12 +1347,15 @@ def run(ctx, out, replay=None):
     def dkey(c):
         return c["kind"] + ("/" + c["style"] if c["kind"] in ("chain", "rc") else "")
 
-    agreements = 0
-    for batch, shard, shr in ((first, 6, shrink), (light, 250, shrink), (heavy, 3, None)):
+    agreements, timing = 0, {"implementation_on_layouts": t_pre}
+    for name, batch, shard, shr in (("corpus", first, 6, shrink), ("kernels", light, 250, shrink), ("layouts", heavy, 3, None)):
         if not batch:
             continue
+        t0 = time.time()
         fr.run_cases(ctx, out, batch, run_mon, to_coq, oracle, failure_key, HEADER, dist_key=dkey,
                      nontrivial=nontrivial, shard=shard, shrink=shr)
         agreements += out.extra.get("model_impl_agreements", 0)
+        timing[name] = round(time.time() - t0, 1)
+    out.extra["wall_by_batch_s"] = timing
     out.extra["model_impl_agreements"] = agreements
     out.extra["normalize_monitor"] = mon
